@@ -20,11 +20,14 @@ pub fn families(prop: &str) -> Families {
         mutants: true,
         seeded_scale: 1,
         seeded_min_width: 40,
+        tame: false,
+        no_collapse: false,
+        seeded_critical: true,
     };
     match prop {
         // C02's quantifier has sort_requires off
         "C02" => Families { corpus_sort: false, ..base },
-        "C06" => Families { corpus_ranges: false, corpus_sort: false, ..base },
+        "C06" => Families { corpus_ranges: false, corpus_sort: false, tame: true, no_collapse: true, mutants: false, seeded_critical: false, seeded_min_width: 120, seeded_scale: 3, ..base },
         "C10" => Families { corpus_ranges: false, ..base },
         _ => base,
     }
